@@ -21,7 +21,7 @@ def main():
         from . import checks_sched
 
         return checks_sched.run(a.prop, a.tier, a.replay)
-    if a.prop in ("C01", "C02", "C03", "C14", "C17", "C20"):
+    if a.prop in ("C01", "C02", "C03", "C12", "C13", "C14", "C17", "C20"):
         from . import checks_config
 
         return checks_config.run(a.prop, a.tier, a.replay)
